@@ -23,7 +23,7 @@ func TestC03(t *testing.T) {
 		ID: "C03",
 		Cfg: core.SimConfig{
 			Prop:   "C03",
-			Owned:  core.Own(core.CatScan, core.CatPanicQuery, core.CatBatchQuery),
+			Owned:  core.Own(core.CatScan, core.CatPanicQuery, core.CatBatchQuery, core.CatCorrupt),
 			Verify: core.FullVerify,
 
 			ScanRegistered: true,
